@@ -367,6 +367,9 @@ func (t *trFunc) walk(stmts []ast.Stmt, env trOpsEnv, g trGuards) error {
 				if err := t.walk(s.Body.List, env.clone(), g2); err != nil {
 					return err
 				}
+				if s.Else == nil && endsWithReturn(s.Body.List) {
+					break // the statements after the block run when n.fnext == nil
+				}
 				eb, ok := s.Else.(*ast.BlockStmt)
 				if !ok {
 					return t.errf(s, "if n.fnext != nil without else block")
@@ -995,7 +998,7 @@ func trExtractors(path string) (string, error) {
 
 // ---------------------------------------------------------------- driver
 
-var trRunFuncs = []string{"neg", "pos", "bitNot", "not"}
+var trRunFuncs = []string{"neg", "pos", "bitNot", "not", "land", "lor"}
 
 func trOpsRender(repo string) (string, int, error) {
 	var b strings.Builder
@@ -1104,6 +1107,7 @@ func trOpsSelfTest(repo string) error {
 		{"run.go", "dest(f).SetInt(-value(f).Int())", "dest(f).SetInt(value(f).Int())"},
 		{"run.go", "dest(f).SetUint(^value(f).Uint())", "dest(f).SetUint(-value(f).Uint())"},
 		{"run.go", "dest(f).Set(value(f).Convert(typ))", "dest(f).Set(value(f))"},
+		{"run.go", "if value0(f).Bool() && value1(f).Bool() {\n\t\t\t\tdest(f).SetBool(true)\n\t\t\t\treturn tnext\n\t\t\t}\n\t\t\tdest(f).SetBool(false)\n\t\t\treturn fnext", "if value0(f).Bool() && value1(f).Bool() {\n\t\t\t\tdest(f).SetBool(true)\n\t\t\t\treturn tnext\n\t\t\t}\n\t\t\treturn fnext"},
 		{"value.go", "return v, int64(v.Uint())", "return v, int64(uint32(v.Uint()))"},
 		{"value.go", "i = uint64(v.Int())", "i = uint64(int32(v.Int()))"},
 		{"typecheck.go", "f, _ := constant.Float32Val(constant.ToFloat(c))\n\t\tv = reflect.ValueOf(f)", "f, _ := constant.Float64Val(constant.ToFloat(c))\n\t\tv = reflect.ValueOf(f).Convert(t)"},
